@@ -13,6 +13,9 @@ import Mathlib.Analysis.SpecialFunctions.Pow.Real
 import Mathlib.Analysis.SpecialFunctions.Log.Basic
 import Mathlib.Algebra.BigOperators.Group.List.Basic
 
+set_option linter.unusedSimpArgs false
+set_option linter.unusedVariables false
+
 namespace TamocV.Lemmas.C16
 open TamocV TamocV.Model.Psf
 
@@ -259,5 +262,449 @@ theorem foldl_truncStep_inv {n : ℕ} {s0 dmax : ℝ} (m : ℕ) (hm : m ≤ n) {
     simp only [List.foldl_cons, List.foldl_nil]
     exact truncStep_inv (by omega) (ih (by omega))
 
+
+/-! ### definedness tracking: the model functions evaluated on `Chk`
+
+  `Chk` is a `Num` instance like `Float` and `ℝ`: the SAME generic model definitions elaborate at it.  `val` is the real
+  value, `ok` the conjunction of the domain conditions of every operation that produced it: divisor ≠ 0, `log` argument > 0,
+  `sqrt` argument ≥ 0, `rpow` base > 0 (or base = 0 with exponent ≥ 0) — what NumPy needs not to signal divide / invalid. -/
+
+/-- a real value together with the proposition "every operation evaluated to produce it was in its domain" -/
+structure Chk where
+  val : ℝ
+  ok : Prop
+
+open Classical in
+noncomputable instance : Num Chk where
+  add a b := ⟨a.val + b.val, a.ok ∧ b.ok⟩
+  sub a b := ⟨a.val - b.val, a.ok ∧ b.ok⟩
+  mul a b := ⟨a.val * b.val, a.ok ∧ b.ok⟩
+  div a b := ⟨a.val / b.val, a.ok ∧ b.ok ∧ b.val ≠ 0⟩
+  neg a := ⟨-a.val, a.ok⟩
+  lt a b := a.val < b.val
+  le a b := a.val ≤ b.val
+  ofNat n := ⟨(n : ℝ), True⟩
+  ofSci m s e := ⟨(OfScientific.ofScientific m s e : ℝ), True⟩
+  exp a := ⟨Real.exp a.val, a.ok⟩
+  log a := ⟨Real.log a.val, a.ok ∧ 0 < a.val⟩
+  sqrt a := ⟨Real.sqrt a.val, a.ok ∧ 0 ≤ a.val⟩
+  rpow a b := ⟨a.val ^ b.val, a.ok ∧ b.ok ∧ (0 < a.val ∨ (a.val = 0 ∧ 0 ≤ b.val))⟩
+  sin a := ⟨Real.sin a.val, a.ok⟩
+  cos a := ⟨Real.cos a.val, a.ok⟩
+  atan2 a b := ⟨Complex.arg ⟨b.val, a.val⟩, a.ok ∧ b.ok⟩
+  decLt := fun _ _ => Classical.propDecidable _
+  decLe := fun _ _ => Classical.propDecidable _
+
+/-- an input: a real that is simply given -/
+def inp (x : ℝ) : Chk := ⟨x, True⟩
+
+@[simp] theorem chk_add (a b : Chk) : a + b = ⟨a.val + b.val, a.ok ∧ b.ok⟩ := rfl
+@[simp] theorem chk_sub (a b : Chk) : a - b = ⟨a.val - b.val, a.ok ∧ b.ok⟩ := rfl
+@[simp] theorem chk_mul (a b : Chk) : a * b = ⟨a.val * b.val, a.ok ∧ b.ok⟩ := rfl
+@[simp] theorem chk_div (a b : Chk) : a / b = ⟨a.val / b.val, a.ok ∧ b.ok ∧ b.val ≠ 0⟩ := rfl
+@[simp] theorem chk_neg (a : Chk) : -a = ⟨-a.val, a.ok⟩ := rfl
+@[simp] theorem chk_lt (a b : Chk) : (a < b) = (a.val < b.val) := rfl
+@[simp] theorem chk_le (a b : Chk) : (a ≤ b) = (a.val ≤ b.val) := rfl
+@[simp] theorem chk_ofNat (n : Nat) [n.AtLeastTwo] : (@OfNat.ofNat Chk n (Num.instOfNat n)) = ⟨(OfNat.ofNat n : ℝ), True⟩ := by
+  show (⟨((n : ℕ) : ℝ), True⟩ : Chk) = _
+  congr 1
+@[simp] theorem chk_zero : (@OfNat.ofNat Chk 0 (Num.instOfNat 0)) = ⟨0, True⟩ := by
+  show (⟨((0 : ℕ) : ℝ), True⟩ : Chk) = _; simp
+@[simp] theorem chk_one : (@OfNat.ofNat Chk 1 (Num.instOfNat 1)) = ⟨1, True⟩ := by
+  show (⟨((1 : ℕ) : ℝ), True⟩ : Chk) = _; simp
+@[simp] theorem chk_ofSci (m : Nat) (s : Bool) (e : Nat) :
+    (@OfScientific.ofScientific Chk Num.instOfScientific m s e) = ⟨(OfScientific.ofScientific m s e : ℝ), True⟩ := rfl
+@[simp] theorem chk_exp (a : Chk) : Num.exp a = ⟨Real.exp a.val, a.ok⟩ := rfl
+@[simp] theorem chk_log (a : Chk) : Num.log a = ⟨Real.log a.val, a.ok ∧ 0 < a.val⟩ := rfl
+@[simp] theorem chk_sqrt (a : Chk) : Num.sqrt a = ⟨Real.sqrt a.val, a.ok ∧ 0 ≤ a.val⟩ := rfl
+@[simp] theorem chk_rpow (a b : Chk) :
+    Num.rpow a b = ⟨a.val ^ b.val, a.ok ∧ b.ok ∧ (0 < a.val ∨ (a.val = 0 ∧ 0 ≤ b.val))⟩ := rfl
+@[simp] theorem chk_npow (a : Chk) (n : Nat) : Num.npow a (n + 1) = ⟨a.val ^ (n + 1), a.ok⟩ := by
+  induction n with
+  | zero => simp [Num.npow]
+  | succ n ih => rw [Num.npow, ih]; simp [pow_succ]
+
+
+def okOpt : Option Chk → Prop
+  | none => True
+  | some x => x.ok
+def ok4 (r : Chk × Option Chk × Chk × Chk) : Prop := r.1.ok ∧ okOpt r.2.1 ∧ r.2.2.1.ok ∧ r.2.2.2.ok
+def ok5 (r : Chk × Chk × Chk × Option Chk × Chk) : Prop := r.1.ok ∧ r.2.1.ok ∧ r.2.2.1.ok ∧ okOpt r.2.2.2.1 ∧ r.2.2.2.2.ok
+def allOk (l : List Chk) : Prop := ∀ x ∈ l, x.ok
+
+@[simp] theorem allOk_nil : allOk [] := by simp [allOk]
+@[simp] theorem allOk_cons (a : Chk) (l : List Chk) : allOk (a :: l) ↔ a.ok ∧ allOk l := by simp [allOk]
+@[simp] theorem allOk_append (l m : List Chk) : allOk (l ++ m) ↔ allOk l ∧ allOk m := by
+  simp only [allOk, List.mem_append]
+  exact ⟨fun h => ⟨fun x hx => h x (Or.inl hx), fun x hx => h x (Or.inr hx)⟩, fun h x hx => hx.elim (h.1 x) (h.2 x)⟩
+
+@[simp] theorem inp_val (x : ℝ) : (inp x).val = x := rfl
+@[simp] theorem inp_ok (x : ℝ) : (inp x).ok = True := rfl
+@[simp] theorem chk_isZero (a : Chk) : isZero a = isZero a.val := by simp [isZero]
+@[simp] theorem chk_sum_nil : Num.sum ([] : List Chk) = ⟨0, True⟩ := by simp [Num.sum]
+@[simp] theorem chk_sum_one (a : Chk) : Num.sum [a] = ⟨0 + a.val, True ∧ a.ok⟩ := by simp [Num.sum]
+
+theorem pi_pos' : (0 : ℝ) < Model.Psf.pi := by simp only [Model.Psf.pi, Num.real_ofSci]; norm_num
+theorem log_half_neg' : Real.log 0.5 < 0 := Real.log_neg (by norm_num) (by norm_num)
+theorem log_005_neg' : Real.log 0.05 < 0 := Real.log_neg (by norm_num) (by norm_num)
+
+/-- the constant `(log(1 - 0.95) / log 0.5) ** (1/1.8)` of the d95 rule is defined -/
+theorem rrFit_some_ok (d50 dm : Chk) (h1 : d50.ok) (h2 : dm.ok) :
+    (rrFit d50 (some dm) 1.8).1.ok ∧ (rrFit d50 (some dm) 1.8).2.1.ok ∧ (rrFit d50 (some dm) 1.8).2.2.ok ∧
+      allOk (rrFitAux d50 (some dm) 1.8) := by
+  have e1 : (1 - 0.95 : ℝ) = 0.05 := by norm_num
+  have e2 : (1 - 0.5 : ℝ) = 0.5 := by norm_num
+  have ha := log_half_neg'
+  have hb := log_005_neg'
+  have hr1 : 0 < Real.log 0.05 / Real.log 0.5 := div_pos_of_neg_of_neg hb ha
+  have hr2 : 0 < Real.log 0.5 / Real.log 0.05 := div_pos_of_neg_of_neg ha hb
+  simp only [rrFit, rrFitAux, rrD95, chk_log, chk_ofSci, chk_one, chk_sub, chk_div, chk_rpow, chk_mul, chk_lt, e1, e2]
+  split <;> simp [h1, h2, ha.ne, hb.ne, hr1, hr2] <;> norm_num
+
+theorem rrFit_none_ok (d50 : Chk) (h1 : d50.ok) :
+    (rrFit d50 none 1.8).1.ok ∧ (rrFit d50 none 1.8).2.1.ok ∧ (rrFit d50 none 1.8).2.2.ok := by
+  simp [rrFit, h1]; norm_num
+
+theorem deMaxOil_ok (a b c : Chk) (ha : a.ok) (hb : b.ok) (hc : c.ok) (hlt : a.val < c.val) (hs : 0 ≤ b.val) :
+    (deMaxOil a b c).ok := by
+  have hG : (0:ℝ) < 9.81 := by norm_num
+  have : 0 < 9.81 * (c.val - a.val) := mul_pos hG (sub_pos.mpr hlt)
+  simp [deMaxOil, Model.Psf.G, ha, hb, hc, this.ne', div_nonneg hs this.le]
+
+/-! sintef -/
+
+theorem sintefD50_ok (dpRoot u0 d0 rho_p mu_p sigma rho : Chk) (h1 : dpRoot.ok) (h2 : d0.ok) :
+    (sintefD50 dpRoot u0 d0 rho_p mu_p sigma rho).ok := by
+  simp only [sintefD50]
+  split <;> simp [h1, h2]
+
+theorem sintefWeVi_ok (u0 d0 rho_p mu_p sigma : Chk) (h1 : u0.ok) (h2 : d0.ok) (h3 : rho_p.ok) (h4 : mu_p.ok) (h5 : sigma.ok)
+    (hs : sigma.val ≠ 0) : (sintefWe u0 d0 rho_p sigma).ok ∧ (sintefVi u0 mu_p sigma).ok := by
+  simp [sintefWe, sintefVi, h1, h2, h3, h4, h5, hs]
+
+/-- `sintef_model` for a flowing liquid phase: results and everything else it evaluates are defined -/
+theorem sintefModel_liquid_ok (dmaxGas dpRoot Uc d0 q rho_p mu_p sigma rho mu : Chk) (useD95 : Bool)
+    (hq : 0 < q.val) (h1 : dpRoot.ok) (h2 : Uc.ok) (h3 : d0.ok) (h4 : rho_p.ok) (h5 : mu_p.ok) (h6 : sigma.ok) (h7 : rho.ok)
+    (hs : 0 < sigma.val) (hlt : rho_p.val < rho.val) :
+    ok4 (sintefModel dmaxGas dpRoot Uc d0 q rho_p mu_p sigma rho mu false useD95) ∧
+      allOk (sintefModelAux dmaxGas dpRoot Uc d0 q rho_p mu_p sigma rho false) := by
+  have hd := sintefD50_ok dpRoot Uc d0 rho_p mu_p sigma rho h1 h3
+  have hm := deMaxOil_ok rho_p sigma rho h4 h6 h7 hlt hs.le
+  have hf := rrFit_some_ok _ _ hd hm
+  have hw := sintefWeVi_ok Uc d0 rho_p mu_p sigma h2 h3 h4 h5 h6 hs.ne'
+  simp only [sintefModel, sintefModelAux, chk_lt, chk_zero, hq, if_true, Bool.false_eq_true, if_false, ok4, okOpt,
+    allOk_append, allOk_cons, allOk_nil, and_true]
+  refine ⟨⟨?_, hm, hf.2.1, hf.2.2.1⟩, ?_⟩
+  rotate_left
+  · simp only [hw.1, hw.2, true_and]; exact hf.2.2.2
+  cases useD95
+  · simp only [Bool.false_eq_true, if_false]; split <;> assumption
+  · simp only [if_true]; exact hf.1
+
+/-- `sintef_model` for a flowing gas phase (maximum stable size = the Grace et al. oracle) -/
+theorem sintefModel_gas_ok (dmaxGas dpRoot Uc d0 q rho_p mu_p sigma rho mu : Chk) (useD95 : Bool)
+    (hq : 0 < q.val) (h0 : dmaxGas.ok) (h1 : dpRoot.ok) (h2 : Uc.ok) (h3 : d0.ok) (h4 : rho_p.ok) (h5 : mu_p.ok) (h6 : sigma.ok)
+    (hs : 0 < sigma.val) :
+    ok4 (sintefModel dmaxGas dpRoot Uc d0 q rho_p mu_p sigma rho mu true useD95) ∧
+      allOk (sintefModelAux dmaxGas dpRoot Uc d0 q rho_p mu_p sigma rho true) := by
+  have hd := sintefD50_ok dpRoot Uc d0 rho_p mu_p sigma rho h1 h3
+  have hf := rrFit_some_ok _ _ hd h0
+  have hw := sintefWeVi_ok Uc d0 rho_p mu_p sigma h2 h3 h4 h5 h6 hs.ne'
+  simp only [sintefModel, sintefModelAux, chk_lt, chk_zero, hq, if_true, ok4, okOpt,
+    allOk_append, allOk_cons, allOk_nil, and_true]
+  refine ⟨⟨?_, h0, hf.2.1, hf.2.2.1⟩, ?_⟩
+  rotate_left
+  · simp only [hw.1, hw.2, true_and]; exact hf.2.2.2
+  cases useD95
+  · simp only [Bool.false_eq_true, if_false]; split <;> assumption
+  · simp only [if_true]; exact hf.1
+
+/-- `sintef_model` for a phase that does not flow: nothing is evaluated but the constants of the empty fit -/
+theorem sintefModel_noflow_ok (dmaxGas dpRoot Uc d0 q rho_p mu_p sigma rho mu : Chk) (isGas useD95 : Bool)
+    (hq : ¬ 0 < q.val) :
+    ok4 (sintefModel dmaxGas dpRoot Uc d0 q rho_p mu_p sigma rho mu isGas useD95) ∧
+      allOk (sintefModelAux dmaxGas dpRoot Uc d0 q rho_p mu_p sigma rho isGas) := by
+  have hf := rrFit_none_ok (⟨0, True⟩ : Chk) trivial
+  simp only [sintefModel, sintefModelAux, chk_lt, chk_zero, hq, if_false, ok4, okOpt, allOk_nil, and_true, true_and]
+  exact hf
+
+/-- exit velocity, mixture density, Froude number and corrected velocity with the OIL phase only -/
+theorem sintefUc_oil_only_ok (d0 rhoGas q rhoOil rho : Chk) (h1 : d0.ok) (h2 : q.ok) (h3 : rhoOil.ok) (h4 : rho.ok)
+    (hd : 0 < d0.val) (hq : 0 < q.val) (hr : 0 < rho.val) (hlt : rhoOil.val < rho.val) :
+    (sintefN ⟨0, True⟩ q).ok ∧ (sintefUn d0 ⟨0, True⟩ rhoGas q rhoOil).1.ok ∧ (sintefUn d0 ⟨0, True⟩ rhoGas q rhoOil).2.ok ∧
+      (sintefFr d0 ⟨0, True⟩ rhoGas q rhoOil rho).ok ∧ (sintefUc d0 ⟨0, True⟩ rhoGas q rhoOil rho).ok := by
+  have hpi := pi_pos'
+  have hz : isZero (0 : ℝ) = true := (isZero_iff 0).mpr rfl
+  have hq0 : isZero q.val = false := isZero_false_of_ne hq.ne'
+  have hG : (0:ℝ) < 9.81 := by norm_num
+  have hbase : 0 < 9.81 * (rho.val - rhoOil.val) / rho.val * d0.val := by
+    have := sub_pos.mpr hlt; positivity
+  have hroot : 0 < (9.81 * (rho.val - rhoOil.val) / rho.val * d0.val) ^ ((1:ℝ) / 2) := Real.rpow_pos_of_pos hbase _
+  have hUn : 0 < 4 * q.val / (Model.Psf.pi * d0.val ^ 2) := by positivity
+  have hden : Model.Psf.pi * d0.val ^ 2 ≠ 0 := by positivity
+  simp only [sintefN, sintefUn, sintefFr, sintefUc, chk_isZero, hz, hq0, Bool.false_eq_true, if_false, if_true,
+    Model.Psf.G, Model.Psf.pi, chk_div, chk_add, chk_mul, chk_sub, chk_ofNat, chk_one, chk_ofSci, chk_npow, chk_rpow,
+    zero_add, true_and, and_true, h1, h2, h3, h4]
+  simp only [Model.Psf.pi, Num.real_ofSci] at hden hUn
+  have hFr := (div_pos hUn hroot).ne'
+  have h2ne : (2 : ℝ) ≠ 0 := by norm_num
+  have hroot2 : (9.81 * (rho.val - rhoOil.val) / rho.val * d0.val) ^ ((2:ℝ)⁻¹) ≠ 0 := (Real.rpow_pos_of_pos hbase _).ne'
+  have hFr2 : 4 * q.val / (3.141592653589793 * d0.val ^ 2) / (9.81 * (rho.val - rhoOil.val) / rho.val * d0.val) ^ ((2:ℝ)⁻¹) ≠ 0 :=
+    (div_pos hUn (Real.rpow_pos_of_pos hbase _)).ne'
+  simp [hq.ne', hden, hr.ne', hbase, hroot.ne', hFr, h2ne, hroot2, hFr2]
+
+/-- … and with the GAS phase only -/
+theorem sintefUc_gas_only_ok (d0 q rhoGas rhoOil rho : Chk) (h1 : d0.ok) (h2 : q.ok) (h3 : rhoGas.ok) (h4 : rho.ok)
+    (hd : 0 < d0.val) (hq : 0 < q.val) (hr : 0 < rho.val) (hlt : rhoGas.val < rho.val) :
+    (sintefN q ⟨0, True⟩).ok ∧ (sintefUn d0 q rhoGas ⟨0, True⟩ rhoOil).1.ok ∧ (sintefUn d0 q rhoGas ⟨0, True⟩ rhoOil).2.ok ∧
+      (sintefFr d0 q rhoGas ⟨0, True⟩ rhoOil rho).ok ∧ (sintefUc d0 q rhoGas ⟨0, True⟩ rhoOil rho).ok := by
+  have hpi := pi_pos'
+  have hz : isZero (0 : ℝ) = true := (isZero_iff 0).mpr rfl
+  have hbase : 0 < 9.81 * (rho.val - rhoGas.val) / rho.val * d0.val := by
+    have := sub_pos.mpr hlt; positivity
+  have hroot : 0 < (9.81 * (rho.val - rhoGas.val) / rho.val * d0.val) ^ ((1:ℝ) / 2) := Real.rpow_pos_of_pos hbase _
+  have hUn : 0 < 4 * q.val / (Model.Psf.pi * d0.val ^ 2) := by positivity
+  have hden : Model.Psf.pi * d0.val ^ 2 ≠ 0 := by positivity
+  simp only [sintefN, sintefUn, sintefFr, sintefUc, chk_isZero, hz, if_true,
+    Model.Psf.G, Model.Psf.pi, chk_div, chk_add, chk_mul, chk_sub, chk_ofNat, chk_one, chk_ofSci, chk_npow, chk_rpow,
+    add_zero, true_and, and_true, h1, h2, h3, h4]
+  simp only [Model.Psf.pi, Num.real_ofSci] at hden hUn
+  have hFr := (div_pos hUn hroot).ne'
+  have h2ne : (2 : ℝ) ≠ 0 := by norm_num
+  have hroot2 : (9.81 * (rho.val - rhoGas.val) / rho.val * d0.val) ^ ((2:ℝ)⁻¹) ≠ 0 := (Real.rpow_pos_of_pos hbase _).ne'
+  have hFr2 : 4 * q.val / (3.141592653589793 * d0.val ^ 2) / (9.81 * (rho.val - rhoGas.val) / rho.val * d0.val) ^ ((2:ℝ)⁻¹) ≠ 0 :=
+    (div_pos hUn (Real.rpow_pos_of_pos hbase _)).ne'
+  simp [hq.ne', hden, hr.ne', hbase, hroot.ne', hFr, h2ne, hroot2, hFr2]
+
+theorem sintefQ_zero (rho : Chk) : sintefQ [inp 0] rho = ⟨0, True⟩ := by
+  simp [sintefQ, inp]
+
+theorem sintefQ_pos (m r : ℝ) (hm : 0 < m) (hr : 0 < r) :
+    (sintefQ [inp m] (inp r)).ok ∧ 0 < (sintefQ [inp m] (inp r)).val := by
+  simp [sintefQ, mass2vol, inp, hm, hr.ne', div_pos hm hr]
+
+theorem mass2vol_zero' (rho : Chk) : mass2vol [inp 0] rho = ⟨0, True⟩ := by
+  simp [mass2vol, inp]
+
+theorem mass2vol_pos (m r : ℝ) (hm : 0 < m) (hr : 0 < r) :
+    (mass2vol [inp m] (inp r)).ok ∧ 0 < (mass2vol [inp m] (inp r)).val := by
+  simp [mass2vol, inp, hm, hr.ne', div_pos hm hr]
+
+theorem deMaxOil_val_pos (a b c : Chk) (hlt : a.val < c.val) (hs : 0 < b.val) : 0 < (deMaxOil a b c).val := by
+  have hG : (0:ℝ) < 9.81 := by norm_num
+  have : 0 < 9.81 * (c.val - a.val) := mul_pos hG (sub_pos.mpr hlt)
+  simp only [deMaxOil, Model.Psf.G, chk_mul, chk_sqrt, chk_div, chk_sub, chk_ofNat, chk_ofSci]
+  have := Real.sqrt_pos.mpr (div_pos hs this)
+  positivity
+
+/-- `li_etal_d50` for a phase that flows (Uc > 0): the correlation and the (argument-swapped) `de_max_oil(sigma, rho_p, rho)`
+    it compares with the orifice are defined -/
+theorem liEtalD50_ok (Uc d0 rho_p mu_p sigma rho : Chk) (isGas : Bool)
+    (h1 : Uc.ok) (h2 : d0.ok) (h3 : rho_p.ok) (h4 : mu_p.ok) (h5 : sigma.ok) (h6 : rho.ok)
+    (hU : 0 < Uc.val) (hd : 0 < d0.val) (hp : 0 < rho_p.val) (hmu : 0 ≤ mu_p.val) (hs : 0 < sigma.val) (hr : 0 < rho.val)
+    (hsr : sigma.val < rho.val) :
+    (liEtalD50 Uc d0 rho_p mu_p sigma rho isGas).ok ∧ (deMaxOil sigma rho_p rho).ok := by
+  have hm := deMaxOil_ok sigma rho_p rho h5 h3 h6 hsr hp.le
+  have hmv := deMaxOil_val_pos sigma rho_p rho hsr hp
+  refine ⟨?_, hm⟩
+  -- the characteristic length dc = min(de_max, d0) is defined and positive
+  set dc : Chk := if (deMaxOil sigma rho_p rho).val < d0.val then deMaxOil sigma rho_p rho else d0 with hdc
+  have hdcok : dc.ok := by rw [hdc]; split <;> assumption
+  have hdcpos : 0 < dc.val := by rw [hdc]; split <;> assumption
+  have hWe : 0 < rho.val * Uc.val ^ 2 * dc.val / sigma.val := by positivity
+  have hsq : 0 < Real.sqrt (rho_p.val * sigma.val * dc.val) := Real.sqrt_pos.mpr (by positivity)
+  have hOh : 0 ≤ mu_p.val / Real.sqrt (rho_p.val * sigma.val * dc.val) := div_nonneg hmu hsq.le
+  have hbase : 0 < 1 + 10 * (mu_p.val / Real.sqrt (rho_p.val * sigma.val * dc.val)) := by linarith
+  have harg : 0 ≤ rho_p.val * sigma.val * dc.val := by positivity
+  simp only [liEtalD50, chk_lt, ← hdc, chk_mul, chk_div, chk_add, chk_sqrt, chk_rpow, chk_npow, chk_ofSci, chk_ofNat, chk_one,
+    chk_neg]
+  cases isGas <;> simp [h1, h3, h4, h5, h6, hdcok, hs.ne', hsq.ne', hbase, hWe, harg]
+
+theorem liEtalUc_ok (d0 qg qo : Chk) (fp : ℕ) (h1 : d0.ok) (h2 : qg.ok) (h3 : qo.ok) (hd : 0 < d0.val) :
+    (liEtalUc d0 qg qo fp).ok := by
+  have hpi := pi_pos'
+  have hden : Model.Psf.pi * d0.val ^ 2 ≠ 0 := by positivity
+  simp only [Model.Psf.pi, Num.real_ofSci] at hden
+  simp [liEtalUc, Model.Psf.pi, h1, h2, h3, hden]
+
+theorem liEtalUc_val_pos (d0 qg qo : Chk) (fp : ℕ) (hd : 0 < d0.val) (hq : 0 < qg.val + qo.val) :
+    0 < (liEtalUc d0 qg qo fp).val := by
+  have hpi := pi_pos'
+  simp only [Model.Psf.pi, Num.real_ofSci] at hpi
+  simp only [liEtalUc, Model.Psf.pi, chk_mul, chk_div, chk_add, chk_npow, chk_ofNat, chk_ofSci]
+  positivity
+
+/-- `li_etal_model` for a flowing phase -/
+theorem liEtalModel_flow_ok (dmaxGas Uc d0 q rho_p mu_p sigma rho mu : Chk) (isGas : Bool)
+    (hq : 0 < q.val) (h0 : dmaxGas.ok) (h1 : Uc.ok) (h2 : d0.ok) (h3 : rho_p.ok) (h4 : mu_p.ok) (h5 : sigma.ok) (h6 : rho.ok)
+    (hU : 0 < Uc.val) (hd : 0 < d0.val) (hp : 0 < rho_p.val) (hmu : 0 ≤ mu_p.val) (hs : 0 < sigma.val) (hr : 0 < rho.val)
+    (hsr : sigma.val < rho.val) (hpr : isGas = false → rho_p.val < rho.val) :
+    ok4 (liEtalModel dmaxGas Uc d0 q rho_p mu_p sigma rho mu isGas) := by
+  have hd50 := (liEtalD50_ok Uc d0 rho_p mu_p sigma rho isGas h1 h2 h3 h4 h5 h6 hU hd hp hmu hs hr hsr).1
+  have hf := rrFit_none_ok _ hd50
+  simp only [liEtalModel, chk_lt, chk_zero, hq, if_true, ok4, okOpt]
+  refine ⟨hf.1, ?_, hf.2.1, hf.2.2⟩
+  cases isGas
+  · simp only [Bool.false_eq_true, if_false]
+    exact deMaxOil_ok rho_p sigma rho h3 h5 h6 (hpr rfl) hs.le
+  · simpa using h0
+
+theorem liEtalModel_noflow_ok (dmaxGas Uc d0 q rho_p mu_p sigma rho mu : Chk) (isGas : Bool) (hq : ¬ 0 < q.val) :
+    ok4 (liEtalModel dmaxGas Uc d0 q rho_p mu_p sigma rho mu isGas) := by
+  have hf := rrFit_none_ok (⟨0, True⟩ : Chk) trivial
+  simp only [liEtalModel, chk_lt, chk_zero, hq, if_false, ok4, okOpt, true_and]
+  exact hf
+
+
+theorem wangKappa_val : (wangKappa (α := Chk)).val = 35.69 / (35.69 - 8.31451) ∧ (wangKappa (α := Chk)).ok := by
+  simp [wangKappa]; norm_num
+
+theorem wangKappa_gt_one : 1 < (wangKappa (α := Chk)).val := by
+  rw [wangKappa_val.1]; norm_num
+
+/-- the exit velocity with the choked-flow correction is defined and positive for a positive volume flux and a positive
+    speed of sound, on all three branches -/
+theorem wangUE_ok (Ug a : Chk) (h1 : Ug.ok) (h2 : a.ok) (hU : 0 < Ug.val) (ha : 0 < a.val) :
+    (wangUE Ug a).ok ∧ 0 < (wangUE Ug a).val ∧ allOk (wangUEAux Ug a) := by
+  have hkok := wangKappa_val.2
+  have hk1 := wangKappa_gt_one
+  simp only [wangUE, wangUEAux]
+  generalize (wangKappa (α := Chk)) = κ at *
+  have hMa : 0 < Ug.val / a.val := div_pos hU ha
+  have hk0 : 0 < κ.val - 1 := by linarith
+  have hkp : 0 < κ.val + 1 := by linarith
+  have hpw : 0 < (Ug.val / a.val) ^ (2:ℝ) := Real.rpow_pos_of_pos hMa 2
+  have harg : 0 ≤ 1 + 2 * (κ.val - 1) * (Ug.val / a.val) ^ (2:ℝ) := by positivity
+  have hsq1 : 1 < Real.sqrt (1 + 2 * (κ.val - 1) * (Ug.val / a.val) ^ (2:ℝ)) :=
+    (Real.lt_sqrt (by norm_num)).mpr (by nlinarith)
+  have hden : (κ.val - 1) * (Ug.val / a.val) ≠ 0 := (mul_pos hk0 hMa).ne'
+  have h2ne : (2:ℝ) ≠ 0 := by norm_num
+  have hhalf : 0 ≤ (κ.val + 1) / 2 := by positivity
+  have hinv : 0 ≤ 2 / (κ.val + 1) := by positivity
+  simp only [chk_lt, chk_mul, chk_ofNat, chk_div, chk_add, chk_sub, chk_one, chk_neg, chk_sqrt, chk_rpow]
+  split
+  · exact ⟨h1, hU, by simp⟩
+  · split
+    · refine ⟨?_, ?_, ?_⟩
+      · have harg' : 0 ≤ 1 + 2 * (κ.val - 1) * (Ug.val / a.val) ^ 2 := by positivity
+        simp [h1, h2, ha.ne', hkok, hden, hMa, harg, harg', hk0.ne', hU.ne']
+      · have : 0 < -1 + Real.sqrt (1 + 2 * (κ.val - 1) * (Ug.val / a.val) ^ (2:ℝ)) := by linarith
+        have hd : 0 < (κ.val - 1) * (Ug.val / a.val) := mul_pos hk0 hMa
+        show 0 < a.val * (-1 + Real.sqrt (1 + 2 * (κ.val - 1) * (Ug.val / a.val) ^ (2:ℝ))) / ((κ.val - 1) * (Ug.val / a.val))
+        positivity
+      · simp [h1, h2, ha.ne', hkok, hhalf]
+    · refine ⟨?_, ?_, ?_⟩
+      · simp [h2, hkok, hkp.ne', hinv]
+      · have : 0 < Real.sqrt (2 / (κ.val + 1)) := Real.sqrt_pos.mpr (by positivity)
+        show 0 < a.val * Real.sqrt (2 / (κ.val + 1))
+        positivity
+      · simp [h1, h2, ha.ne', hkok, hhalf]
+
+theorem lnFit_some_ok (d dm sigma : Chk) (h1 : d.ok) (h2 : dm.ok) (h3 : sigma.ok) (hd : 0 < d.val) (hm : 0 < dm.val) :
+    (lnFit d (some dm) sigma).1.ok ∧ (lnFit d (some dm) sigma).2.ok ∧ allOk (lnFitAux d (some dm) sigma) := by
+  simp only [lnFit, lnFitAux, lnD95, chk_log, chk_ofSci, chk_add, chk_mul, chk_exp, chk_lt, chk_sub]
+  split <;> simp [h1, h2, h3, hd, hm]
+
+theorem lnFit_none_ok (d sigma : Chk) (h1 : d.ok) (h3 : sigma.ok) :
+    (lnFit d none sigma).1.ok ∧ (lnFit d none sigma).2.ok := by
+  simp [lnFit, h1, h3]
+
+/-- `wang_etal_d50` for gas only (n = 1): defined, with a positive diameter -/
+theorem wangD50_gas_only_ok (A n Ug rho_g mu_g sigma_g Ul rho_l rho mu : Chk)
+    (h1 : A.ok) (h2 : n.ok) (h3 : Ug.ok) (h4 : rho_g.ok) (h5 : sigma_g.ok) (h6 : Ul.ok) (h7 : rho_l.ok) (h8 : rho.ok)
+    (hn : n.val = 1) (hA : 0 < A.val) (hU : 0 < Ug.val) (hg : 0 < rho_g.val) (hlt : rho_g.val < rho.val) (hs : 0 < sigma_g.val) :
+    (wangD50 A n Ug rho_g mu_g sigma_g Ul rho_l rho mu).1.ok ∧ 0 < (wangD50 A n Ug rho_g mu_g sigma_g Ul rho_l rho mu).1.val ∧
+    (wangD50 A n Ug rho_g mu_g sigma_g Ul rho_l rho mu).2.1.ok ∧ (wangD50 A n Ug rho_g mu_g sigma_g Ul rho_l rho mu).2.2.ok := by
+  have hr : 0 < rho.val := hg.trans hlt
+  have hone : isZero (n.val - 1) = true := by rw [hn, sub_self]; exact (isZero_iff 0).mpr rfl
+  have hdr : 0 < rho.val - rho_g.val := sub_pos.mpr hlt
+  have hG : (0:ℝ) < 9.81 := by norm_num
+  have hz : isZero (0 : ℝ) = true := (isZero_iff 0).mpr rfl
+  have hmo : 0 < rho_g.val * A.val * Ug.val ^ 2 := by positivity
+  have hM : 0 < rho_g.val * A.val * Ug.val ^ 2 / rho.val := by positivity
+  have hB : 0 < (rho.val - rho_g.val) * 9.81 * A.val * Ug.val / rho.val := by positivity
+  have hBr : 0 < ((rho.val - rho_g.val) * 9.81 * A.val * Ug.val / rho.val) ^ ((1:ℝ) / 2) := Real.rpow_pos_of_pos hB _
+  have hBr2 : 0 < ((rho.val - rho_g.val) * 9.81 * A.val * Ug.val / rho.val) ^ ((2:ℝ)⁻¹) := Real.rpow_pos_of_pos hB _
+  have hMr : 0 < (rho_g.val * A.val * Ug.val ^ 2 / rho.val) ^ ((3:ℝ) / 4) := Real.rpow_pos_of_pos hM _
+  have hden2 : rho.val * A.val ≠ 0 := (mul_pos hr hA).ne'
+  have hUa2 : 0 ≤ rho_g.val * A.val * Ug.val ^ 2 / (rho.val * A.val) := by positivity
+  have hUa : 0 < Real.sqrt (rho_g.val * A.val * Ug.val ^ 2 / (rho.val * A.val)) := Real.sqrt_pos.mpr (by positivity)
+  have hWe : 0 < rho_g.val * Real.sqrt (rho_g.val * A.val * Ug.val ^ 2 / (rho.val * A.val)) ^ 2 *
+      ((rho_g.val * A.val * Ug.val ^ 2 / rho.val) ^ ((3:ℝ) / 4) /
+        ((rho.val - rho_g.val) * 9.81 * A.val * Ug.val / rho.val) ^ ((1:ℝ) / 2)) / sigma_g.val := by positivity
+  have hWe2 : 0 < rho_g.val * Real.sqrt (rho_g.val * A.val * Ug.val ^ 2 / (rho.val * A.val)) ^ 2 *
+      ((rho_g.val * A.val * Ug.val ^ 2 / rho.val) ^ ((3:ℝ) / 4) /
+        ((rho.val - rho_g.val) * 9.81 * A.val * Ug.val / rho.val) ^ ((2:ℝ)⁻¹)) / sigma_g.val := by positivity
+  simp only [wangD50, chk_isZero, chk_sub, chk_one, hone, if_true, Model.Psf.G, chk_mul, chk_add, chk_div, chk_npow, chk_rpow,
+    chk_sqrt, chk_ofNat, chk_ofSci, chk_zero, chk_neg, hn, hz, mul_one, add_zero, one_mul, sub_self, zero_mul, Nat.reduceAdd]
+  refine ⟨?_, ?_, ?_, ?_⟩
+  · simp [h1, h2, h3, h4, h5, h8, hr.ne', hs.ne', hM, hB, hBr.ne', hBr2.ne', hUa2, hWe, hWe2, hden2]
+    left
+    have hx : 0 < rho_g.val * A.val * Ug.val ^ 2 / (rho.val * A.val) := by positivity
+    positivity
+  · have := Real.rpow_pos_of_pos hWe ((-3:ℝ) / 5)
+    positivity
+  · simp [h1, h2, h3, h4]
+  · simp [h1, h2, h6]
+
+theorem wangA_ok (d0 : Chk) (h : d0.ok) (hd : 0 < d0.val) : (wangA d0).ok ∧ 0 < (wangA d0).val := by
+  have hpi := pi_pos'
+  simp only [Model.Psf.pi, Num.real_ofSci] at hpi
+  simp only [wangA, Model.Psf.pi, chk_mul, chk_div, chk_npow, chk_ofNat, chk_ofSci]
+  refine ⟨by simp [h], by positivity⟩
+
+/-- speed of sound from the two methane densities: defined and positive when the density increases with pressure -/
+theorem wangSound_ok (rhoA rhoB P : ℝ) (hP : 0 < P) (hAB : rhoA < rhoB) :
+    (wangSound (inp rhoA) (inp rhoB) (inp P)).ok ∧ 0 < (wangSound (inp rhoA) (inp rhoB) (inp P)).val := by
+  have hden : rhoA - rhoB < 0 := by linarith
+  have hnum : P - 1.01 * P < 0 := by nlinarith
+  have hq : 0 < (P - 1.01 * P) / (rhoA - rhoB) := div_pos_of_neg_of_neg hnum hden
+  simp only [wangSound, inp, chk_sub, chk_mul, chk_div, chk_sqrt, chk_ofSci]
+  exact ⟨by simp [hden.ne, hq.le], Real.sqrt_pos.mpr hq⟩
+
+theorem wangQl_zero (rho : Chk) : wangQl [inp 0] rho = ⟨0, True⟩ := by
+  have hz : isZero (0 + 0 : ℝ) = true := by rw [add_zero]; exact (isZero_iff 0).mpr rfl
+  simp [wangQl, inp, hz]
+
+theorem wangQl_pos (m r : ℝ) (hm : 0 < m) (hr : 0 < r) :
+    (wangQl [inp m] (inp r)).ok ∧ 0 < (wangQl [inp m] (inp r)).val := by
+  have hz : isZero (0 + m : ℝ) = false := isZero_false_of_ne (by linarith)
+  have := mass2vol_pos m r hm hr
+  simp only [wangQl, chk_isZero, chk_sum_one, inp_val, hz, Bool.false_eq_true, if_false]
+  exact this
+
+
+/-! ### constants and bounds used by Props/C16.lean -/
+
+theorem log_half_neg : Real.log 0.5 < 0 := Real.log_neg (by norm_num) (by norm_num)
+
+theorem log_005_neg : Real.log 0.05 < 0 := Real.log_neg (by norm_num) (by norm_num)
+
+theorem pi_pos : (0 : ℝ) < Model.Psf.pi := by simp only [Model.Psf.pi, Num.real_ofSci]; norm_num
+
+theorem G_pos : (0 : ℝ) < Model.Psf.G := by simp only [Model.Psf.G, Num.real_ofSci]; norm_num
+
+theorem mass2vol_zero (rho : ℝ) : mass2vol [(0 : ℝ)] rho = 0 := by
+  simp [mass2vol, Num.real_sum]
+
+/-- lower bound of the Li et al. correlation for liquids at Weber number ≤ 1: d50 ≥ 14.05·dc -/
+theorem liEtalD50_ge (Uc d0 rho_p mu_p sigma rho : ℝ) (hd0 : 0 < d0) (hmu : 0 ≤ mu_p) (hsig : 0 < sigma) (hrho : 0 < rho)
+    (hUc : 0 < Uc) (hdc : ¬ deMaxOil sigma rho_p rho < d0) (hWe : rho * Uc ^ 2 * d0 / sigma ≤ 1) :
+    14.05 * d0 ≤ liEtalD50 Uc d0 rho_p mu_p sigma rho false := by
+  simp only [liEtalD50, hdc, if_false, Bool.false_eq_true, Num.real_rpow, Num.real_npow, Num.real_sqrt, Num.real_ofSci,
+    Num.real_ofNat, Num.real_one]
+  have hWepos : 0 < rho * Uc ^ 2 * d0 / sigma := by positivity
+  have h1 : (1 : ℝ) ≤ (1 + 10 * (mu_p / Real.sqrt (rho_p * sigma * d0))) ^ (0.460 : ℝ) :=
+    Real.one_le_rpow (by have := Real.sqrt_nonneg (rho_p * sigma * d0); have : 0 ≤ mu_p / Real.sqrt (rho_p * sigma * d0) := div_nonneg hmu this; linarith) (by norm_num)
+  have h2 : (1 : ℝ) ≤ (rho * Uc ^ 2 * d0 / sigma) ^ (-0.518 : ℝ) :=
+    Real.one_le_rpow_of_pos_of_le_one_of_nonpos hWepos hWe (by norm_num)
+  have h3 : (14.05 : ℝ) ≤ 14.05 * (1 + 10 * (mu_p / Real.sqrt (rho_p * sigma * d0))) ^ (0.460 : ℝ) *
+      (rho * Uc ^ 2 * d0 / sigma) ^ (-0.518 : ℝ) := by
+    have : (14.05 : ℝ) * 1 * 1 ≤ 14.05 * (1 + 10 * (mu_p / Real.sqrt (rho_p * sigma * d0))) ^ (0.460 : ℝ) *
+        (rho * Uc ^ 2 * d0 / sigma) ^ (-0.518 : ℝ) := by
+      apply mul_le_mul _ h2 (by norm_num) (by positivity)
+      exact mul_le_mul_of_nonneg_left h1 (by norm_num)
+    linarith
+  exact mul_le_mul_of_nonneg_right h3 hd0.le
 
 end TamocV.Lemmas.C16
